@@ -156,8 +156,21 @@ Type *promoted_type(Node *node) {
   // comma expression those of its right operand: if that operand is a
   // bit-field, so is the value of the whole expression. This covers
   // `A.x op= B` and `++A.x`, which are lowered to those two operators.
-  while (node->kind == ND_COMMA || node->kind == ND_ASSIGN)
+  // So is a [GNU] statement expression, which has the type and the
+  // value of its last expression statement.
+  while (node->kind == ND_COMMA || node->kind == ND_ASSIGN ||
+         node->kind == ND_STMT_EXPR) {
+    if (node->kind == ND_STMT_EXPR) {
+      Node *stmt = node->body;
+      while (stmt && stmt->next)
+        stmt = stmt->next;
+      if (!stmt || stmt->kind != ND_EXPR_STMT)
+        break;
+      node = stmt->lhs;
+      continue;
+    }
     node = (node->kind == ND_COMMA) ? node->rhs : node->lhs;
+  }
 
   if (node->kind == ND_MEMBER && node->member->is_bitfield &&
       node->member->bit_width < ty_int->size * 8)
